@@ -290,14 +290,101 @@ func checkInside(doc *ast.Document, in string) (site, detail string) {
 	return "", ""
 }
 
+const siteBlockLiteral = "block string literal handed out by the lexer vs the trimmed text between the delimiters"
+
+// checkBlockLiterals: for every block string of the accepted document (values
+// and descriptions) the literal the lexer hands out must be the text between
+// the delimiters of the spec-level token with the white space at both ends
+// trimmed (that is the lexer's contract, the printers rely on it).
+func checkBlockLiterals(doc *ast.Document, in string) (bad string, notJudged int) {
+	if !strings.Contains(in, `"""`) {
+		return "", 0
+	}
+	var toks []tok
+	for _, r := range blockRefsOf(doc) {
+		if toks == nil {
+			toks = scan(in)
+		}
+		cs, ce := int(r.Start), int(r.End)
+		if cs > ce || ce > len(in) {
+			notJudged++
+			continue
+		}
+		found := false
+		for _, t := range toks {
+			if t.kind != tkBlockString || cs < t.start+3 || cs > t.end {
+				continue
+			}
+			if len(t.text) < 6 || !strings.HasSuffix(t.text, `"""`) || cs > t.end-3 {
+				break
+			}
+			found = true
+			inner := in[t.start+3 : t.end-3]
+			if want := strings.Trim(inner, " \t\r\n"); in[cs:ce] != want && bad == "" {
+				bad = fmt.Sprintf("the block string with raw text %q has the literal %q, the lexer hands out %q", inner, want, in[cs:ce])
+			}
+			break
+		}
+		if !found {
+			notJudged++
+		}
+	}
+	return bad, notJudged
+}
+
+// blockRefsOf returns the literal reference of every block string of the tree
+// (string values first, then descriptions in slice order).
+func blockRefsOf(doc *ast.Document) []ast.ByteSliceReference {
+	var out []ast.ByteSliceReference
+	for _, sv := range doc.StringValues {
+		if sv.BlockString {
+			out = append(out, sv.Content)
+		}
+	}
+	var descs func(v reflect.Value)
+	descs = func(v reflect.Value) {
+		switch v.Kind() {
+		case reflect.Struct:
+			if v.Type() == descType {
+				d := v.Interface().(ast.Description)
+				if d.IsDefined && d.IsBlockString {
+					out = append(out, d.Content)
+				}
+				return
+			}
+			for i := 0; i < v.NumField(); i++ {
+				if v.Type().Field(i).IsExported() {
+					descs(v.Field(i))
+				}
+			}
+		case reflect.Slice:
+			if v.Type().Elem().Kind() == reflect.Struct {
+				for i := 0; i < v.Len(); i++ {
+					descs(v.Index(i))
+				}
+			}
+		}
+	}
+	dv := reflect.ValueOf(doc).Elem()
+	for i := 0; i < dv.NumField(); i++ {
+		if !docSkip[dv.Type().Field(i).Name] {
+			descs(dv.Field(i))
+		}
+	}
+	return out
+}
+
+var descType = reflect.TypeOf(ast.Description{})
+
 const siteBlockValue = "block string value handed out by the document (BlockStringValueContentBytes) vs BlockStringValue() of the spec"
 
 // checkBlockValues compares, for every block string *value* of the accepted
 // document, what the library hands out as its value with BlockStringValue()
 // of the spec computed by the check from the raw text between the delimiters
-// (the \""" escape is left alone on both sides). The raw text is located with
-// the check's own scanner; a string on whose extent the scanner and the lexer
-// disagree by more than white space is not judged.
+// (the \""" escape is left alone on both sides). The raw text is the block
+// string token of the check's own spec-level scanner (the first unescaped """
+// closes) that contains the start of the literal; a literal that lies in no
+// terminated token of the scanner is not judged.
 func checkBlockValues(doc *ast.Document, in string) (bad, kind string, notJudged int) {
 	var toks []tok
 	for i := range doc.StringValues {
@@ -320,9 +407,6 @@ func checkBlockValues(doc *ast.Document, in string) (bad, kind string, notJudged
 				continue
 			}
 			if len(t.text) < 6 || !strings.HasSuffix(t.text, `"""`) || ce > t.end-3 {
-				break
-			}
-			if strings.Trim(in[t.start+3:cs], " \t\r\n") != "" || strings.Trim(in[ce:t.end-3], " \t\r\n") != "" {
 				break
 			}
 			inner, found = in[t.start+3:t.end-3], true
@@ -545,10 +629,20 @@ func evaluate(in string, mask int) (res evalResult) {
 		sites = append(sites, site)
 	}
 
+	// block string literals handed out by the lexer
+	if mask&mInside != 0 {
+		bad, nj := checkBlockLiterals(doc, in)
+		res.BlockValuesNotJudged += nj
+		if bad != "" {
+			res.Fails = append(res.Fails, failure{clauseInside, siteBlockLiteral, fmt.Sprintf("input %q: %s", in, bad)})
+			sites = append(sites, "blockliteral")
+		}
+	}
+
 	// block string values handed out by the document vs BlockStringValue() of the spec
 	if mask&mInside != 0 {
 		bad, kind, nj := checkBlockValues(doc, in)
-		res.BlockValuesNotJudged = nj
+		res.BlockValuesNotJudged += nj
 		if bad != "" {
 			res.Fails = append(res.Fails, failure{clauseInside, siteBlockValue + ": " + kind, fmt.Sprintf("input %q: %s", in, bad)})
 			sites = append(sites, "blockvalue")
